@@ -101,6 +101,24 @@ def run(ctx):
                 c = a0[1] if a0[0] == "const" else (a0[2][0][1] if a0[0] == "agg" and a0[2] and a0[2][0][0] == "const" else None)
             ctx.ob("C06.4", "%s|answers-500" % f.id, "the automatic answer is an empty 500", c == 500, f.loc(b), origin_str(o))
             ctx.ob("C06.4", "%s|answers-once" % f.id, "the destructor answers once", not f.in_loop(b) and len(ri) == 1, f.loc(b))
+        # nothing that waits for the client may come before the automatic answer: destroying (draining) the body
+        # reader first would make the 500 wait for body bytes the client may never send
+        inst = facts.mono_instance(f.id)
+        before = f.reach([occ], blocked=ri, unwind=False)
+        early = []
+        for b in sorted(before):
+            if f.blocks[b]["cleanup"]:
+                continue
+            t2 = f.term(b)
+            if t2["t"] in ("call", "drop"):
+                eff = facts.call_effects(inst, b) & {"BLOCK-IO", "WAIT-TURN-R", "CV-WAIT", "SLEEP"}
+                if eff:
+                    early.append((f.loc(b), sorted(eff)))
+        for g2, b2, kind, x in facts.field_writes(REQ, "data_reader"):
+            if g2.id == f.id and b2 in before and kind in ("assign", "drop", "mutref", "calldest"):
+                early.append((f.loc(b2), "body reader replaced/destroyed"))
+        ctx.ob("C06.4", "%s|answer-before-draining" % f.id, "the automatic 500 is written before the body reader is destroyed (its destructor may wait for body bytes the client never sends)",
+               not early, f.loc(occ), None if not early else str(early[:3]))
         r_emp = f.reach([emp], unwind=False)
         touched = [b for b in r_emp if f.term(b)["t"] == "call" and (call_is(f.term(b), respond_impl.id) or f.term(b).get("trait") == T_WRITE or call_matches(f.term(b), r"raw_print$"))]
         ctx.ob("C06.4", "%s|answered-stays-silent" % f.id, "a Request that was already answered writes nothing when destroyed", not touched, f.loc(emp))
